@@ -890,6 +890,17 @@ def c17_r1(ctx):
     maps Contradiction to Err."""
     f = ctx.P.fn(HIST_INSERT)
     ctx.saw(f)
+    # nothing is ever taken out of the map of remembered results (anywhere in production code):
+    # a record that is dropped cannot contradict the next execution on the same sources
+    for g in ctx.P.fns.values():
+        if g.body.get("in_test") or g.kind == "promoted":
+            continue
+        for c in g.calls:
+            if c.name in ("clear", "remove", "remove_entry", "retain", "drain", "extract_if", "split_off", "pop_first", "pop_last") \
+                    and ("HashMap" in c.path or "BTreeMap" in c.path) and c.args:
+                mo = g.origins_of_operand(c.args[0])
+                if mo and all(o[-1] == ("field", "source_to_targets") for o in mo):
+                    ctx.viol((g.id, "records-dropped", c.name), "remembered results are taken out of a rule's history (%s): when the same sources come back, a differing result is recorded as if it were the first, and no contradiction is reported" % c.name, c.where)
     ins = f.calls_to("std::collections::HashMap::<K, V, S>::insert")
     if not ins and [c for c in f.calls if c.name == "entry" and "HashMap" in c.path]:
         # the entry API: `match map.entry(k) { Occupied(e) => .. e.get() .., Vacant(v) => v.insert(x) }`.
